@@ -11,7 +11,7 @@ pub fn bytes_lit(bs: &[u8]) -> String {
 }
 
 fn is_int(t: &Ty) -> bool {
-    matches!(t, Ty::Usize | Ty::U8 | Ty::Int)
+    matches!(t, Ty::Usize | Ty::U8 | Ty::Int | Ty::UInt)
 }
 
 impl<'a> Tr<'a> {
@@ -103,6 +103,25 @@ impl<'a> Tr<'a> {
                 return Ok(Val::pure_("none", Ty::Opt(Box::new(inner))));
             }
             return self.tr_const(n);
+        }
+        if segs.len() == 2 && (segs[0] == "tables" || segs[0] == "layout_table") {
+            // a static of the generated tables: a field of the model's `Tables` / `Layout` parameter
+            return match config::TABLES.iter().find(|(n, _, _)| *n == segs[1]) {
+                Some((_, lean, keys)) => {
+                    if lean.starts_with("T.") {
+                        self.uses_t = true;
+                    } else {
+                        self.uses_l = true;
+                    }
+                    let ty = match keys {
+                        1 => Ty::Table1,
+                        2 => Ty::Table2,
+                        _ => Ty::NatList,
+                    };
+                    Ok(Val::pure_(*lean, ty))
+                }
+                None => self.unsup(format!("unknown table `{}`", segs[1])),
+            };
         }
         if segs.len() == 2 {
             return self.tr_variant(&segs[0], &segs[1], &[]);
@@ -365,7 +384,15 @@ impl<'a> Tr<'a> {
             }
             E::Return(_) => self.unsup("`return` inside an expression"),
             E::Closure(_) => self.unsup("a closure used as a value"),
-            E::Unsafe(_) => self.unsup("`unsafe` block"),
+            E::Unsafe(u) if u.block.stmts.len() == 1 && matches!(&u.block.stmts[0], syn::Stmt::Expr(_, None)) => {
+                // `unsafe { call(..) }`: the block changes nothing about what is computed (the callee's contract is in the
+                // translator's table)
+                match &u.block.stmts[0] {
+                    syn::Stmt::Expr(x, None) => self.tr_expr(x, env, expected),
+                    _ => self.unsup("`unsafe` block"),
+                }
+            }
+            E::Unsafe(_) => self.unsup("`unsafe` block with statements"),
             E::Loop(_) | E::While(_) | E::ForLoop(_) => self.unsup("loop"),
             E::Assign(_) => self.unsup("assignment"),
             E::Tuple(t) => {
@@ -468,14 +495,10 @@ impl<'a> Tr<'a> {
             Ty::Tuple(ts) => {
                 if let syn::Member::Unnamed(i) = member {
                     let k = i.index as usize;
-                    if k < ts.len() {
-                        let proj = if ts.len() == 1 {
-                            String::new()
-                        } else if k + 1 == ts.len() {
-                            format!("{}2", "2.".repeat(k).trim_end_matches('.').to_string() + if k > 0 { "." } else { "" })
-                        } else {
-                            format!("{}1", "2.".repeat(k))
-                        };
+                    let n = ts.len();
+                    if k < n && n >= 2 {
+                        // nested pairs: (a, (b, c)): .0 = .1, .1 = .2.1, .2 = .2.2
+                        let proj = if k + 1 < n { format!("{}1", "2.".repeat(k)) } else { format!("{}2", "2.".repeat(k - 1)) };
                         return Ok((Some(proj), ts[k].clone()));
                     }
                 }
@@ -534,6 +557,20 @@ impl<'a> Tr<'a> {
 
     fn tr_index(&mut self, i: &syn::ExprIndex, env: &Env) -> R<Val> {
         let base = self.tr_expr(&i.expr, env, None)?;
+        if matches!(base.ty, Ty::Table1 | Ty::Table2) {
+            let idx = self.tr_expr(&i.index, env, Some(&Ty::Usize))?;
+            if !matches!(idx.ty, Ty::Usize | Ty::Int) {
+                return self.unsup("table index that is not usize");
+            }
+            self.effect_guard("indexing a table")?;
+            let val = Ty::Tuple(vec![Ty::Opt(Box::new(Ty::UInt)), Ty::Opt(Box::new(Ty::UInt)), Ty::Opt(Box::new(Ty::UInt))]);
+            let (f, ty) = if base.ty == Ty::Table1 {
+                ("tblRow1", Ty::Tuple(vec![Ty::UInt, val]))
+            } else {
+                ("tblRow2", Ty::Tuple(vec![Ty::UInt, Ty::UInt, val]))
+            };
+            return self.lift(&[base, idx], ty, true, &|x| format!("({} {} {})", f, x[0], x[1]));
+        }
         if base.ty != Ty::Slice {
             return self.unsup(format!("indexing into {:?}", base.ty));
         }
@@ -796,6 +833,27 @@ impl<'a> Tr<'a> {
                 }
             }
         }
+        if segs.len() == 2 && segs[0] == "Into" && segs[1] == "into" && args.len() == 1 {
+            let v = self.tr_expr(args[0], env, None)?;
+            return self.tr_into(v);
+        }
+        if segs.len() == 2 && segs[1] == "from_raw_unchecked" && args.len() == 1 && self.reg.newtype(&segs[0])?.is_some() {
+            // `T::from_raw_unchecked(v)`: the bytes of the little-endian integer (contract: `Model/Likely.lean`, `unpack`)
+            let v = self.tr_expr(args[0], env, Some(&Ty::UInt))?;
+            if v.ty != Ty::UInt {
+                return self.unsup("from_raw_unchecked of something that is not a u32/u64");
+            }
+            let name = segs[0].clone();
+            self.named(&name)?;
+            let is_opt = matches!(self.newtype_inner(&name)?, Some(Ty::Opt(_)));
+            return self.lift(&[v], Ty::Named(name), false, &|a| {
+                if is_opt {
+                    format!("(some (UL.unpack {}))", a[0])
+                } else {
+                    format!("(UL.unpack {})", a[0])
+                }
+            });
+        }
         if segs.len() == 2 {
             let (ty, f) = (segs[0].as_str(), segs[1].as_str());
             if let Some(n) = self.tiny_name(ty) {
@@ -844,6 +902,41 @@ impl<'a> Tr<'a> {
             return self.tr_target_call(Some(&tyname), f, None, &args, env);
         }
         self.unsup(format!("call of `{}`", segs.join("::")))
+    }
+
+    /// `x.into()` / `Into::<T>::into(x)` for the subtag types: the little-endian integer of the bytes
+    /// (`u64::from_le_bytes(*s.all_bytes())`; contract: the model's `pack`).
+    pub fn tr_into(&mut self, v: Val) -> R<Val> {
+        let name = match &v.ty {
+            Ty::Named(n) => n.clone(),
+            t => return self.unsup(format!("`.into()` on {:?}", t)),
+        };
+        let inner = match self.newtype_inner(&name)? {
+            Some(t) => t,
+            None => return self.unsup(format!("`.into()` on {}", name)),
+        };
+        // the conversion must be the one the contract describes
+        let file = config::NEWTYPES.iter().find(|(n, _)| *n == name).map(|(_, f)| *f).unwrap_or("");
+        let f = self.reg.file(file)?;
+        let mut found = false;
+        for it in &f.items {
+            if let syn::Item::Impl(im) = it {
+                let toks = norm_tokens(im);
+                if toks.starts_with(&format!("impl From < {} > for", name)) && toks.contains("from_le_bytes (* ") && toks.contains(". all_bytes ()") {
+                    let mut bare = im.clone();
+                    bare.attrs.clear();
+                    self.deps.insert(format!("{}::impl From<{}> for integer", file, name), norm_tokens(&bare));
+                    found = true;
+                }
+            }
+        }
+        if !found {
+            return self.unsup(format!("no `impl From<{}> for u32/u64/Option<u64>` of the expected form", name));
+        }
+        match inner {
+            Ty::Opt(_) => self.lift(&[v], Ty::Opt(Box::new(Ty::UInt)), false, &|a| format!("(Option.map UL.pack {})", a[0])),
+            _ => self.lift(&[v], Ty::UInt, false, &|a| format!("(UL.pack {})", a[0])),
+        }
     }
 
     fn tr_newtype_ctor(&mut self, name: &str, args: &[&syn::Expr], env: &Env) -> R<Val> {
@@ -960,14 +1053,37 @@ impl<'a> Tr<'a> {
             }
             // a generic callee (`P: PartialEq`) is instantiated by the argument: `==` must be derived there
             let _ = self.eq_able(&v.ty);
+            if crate::tr_stmt::contains_infer(&v.ty) {
+                // `None` / `vec![]` as an argument: Lean checks the type when the module is compiled
+                continue;
+            }
             let lt = self.lean_ty(&v.ty)?;
             if &lt != p {
                 return self.unsup(format!("argument of Lean type `{}` passed to {} where `{}` is expected", lt, tgt.lean, p));
             }
         }
         let name = format!("UL.Src.{}", sig.lean);
+        let mut lead = String::new();
+        if sig.uses_t {
+            self.uses_t = true;
+            lead.push_str(" T");
+        }
+        if sig.uses_l {
+            self.uses_l = true;
+            lead.push_str(" L");
+        }
+        if sig.plain_res {
+            // the callee's Rust type is a plain `T`; its Lean definition returns `Res T` because it may panic: bind it (the
+            // panic propagates, as in Rust) and go on with the value
+            let plain = match &sig.ret {
+                Ty::ResPE(x) => (**x).clone(),
+                t => t.clone(),
+            };
+            self.effect_guard(&format!("a call of {} (it may panic)", tgt.lean))?;
+            return self.lift(&vals, plain, true, &|a| format!("({}{} {})", name, lead, a.join(" ")));
+        }
         let ret = sig.ret.clone();
-        let mut out = self.lift(&vals, ret, false, &|a| format!("({} {})", name, a.join(" ")))?;
+        let mut out = self.lift(&vals, ret, false, &|a| format!("({}{} {})", name, lead, a.join(" ")))?;
         if sig.mode == Mode::Res {
             out.callres = true;
         }
